@@ -19,6 +19,7 @@ package eip712
 import (
 	"bytes"
 	"context"
+	"encoding/json"
 	"fmt"
 	"sort"
 	"strconv"
@@ -37,6 +38,15 @@ type TypedData struct {
 	PrimaryType string                 `ffstruct:"TypedData" json:"primaryType"`
 	Domain      map[string]interface{} `ffstruct:"TypedData" json:"domain"`
 	Message     map[string]interface{} `ffstruct:"TypedData" json:"message"`
+}
+
+// UnmarshalJSON keeps JSON numbers in the domain and message as their literal text (json.Number), so that an
+// integer such as 9007199254740993 is not rounded through float64 before it is encoded
+func (t *TypedData) UnmarshalJSON(b []byte) error {
+	type typedDataFields TypedData // the same fields, without this method
+	d := json.NewDecoder(bytes.NewReader(b))
+	d.UseNumber()
+	return d.Decode((*typedDataFields)(t))
 }
 
 type TypeMember struct {
@@ -160,7 +170,9 @@ func addNestedTypes(typeName string, allTypes TypeSet, typeSet TypeSet) {
 	if ok && typeSet[typeName] == nil {
 		typeSet[typeName] = t
 		for _, tm := range t {
-			addNestedTypes(tm.Type, allTypes, typeSet)
+			if tm != nil { // a null member is rejected by encodeType
+				addNestedTypes(tm.Type, allTypes, typeSet)
+			}
 		}
 	}
 }
@@ -183,6 +195,14 @@ func encodeType(ctx context.Context, typeName string, allTypes TypeSet) (Type, s
 
 	depSet := make(TypeSet)
 	addNestedTypes(typeName, allTypes, depSet)
+	for depName, depType := range depSet {
+		for _, tm := range depType {
+			if tm == nil {
+				// such as {"types":{"A":[null]}} in the JSON payload
+				return nil, "", i18n.NewError(ctx, signermsgs.MsgEIP712UnsupportedStrType, depName+" (null member)")
+			}
+		}
+	}
 	typeEncoded := depSet.Encode(typeName)
 	log.L(ctx).Tracef("encodeType(%s): %s", typeName, typeEncoded)
 	return t, typeEncoded, nil
